@@ -120,9 +120,25 @@ pub fn run_child_json<T: for<'de> Deserialize<'de>>(
     scratch: &Path,
     limit_s: u64,
 ) -> Result<T, String> {
+    run_child_json_env(exe, sub, req_json, scratch, limit_s, &[])
+}
+
+/// same, with extra environment variables for the child
+pub fn run_child_json_env<T: for<'de> Deserialize<'de>>(
+    exe: &Path,
+    sub: &str,
+    req_json: &str,
+    scratch: &Path,
+    limit_s: u64,
+    env: &[(&str, &str)],
+) -> Result<T, String> {
     let reqf = scratch.join(format!("child-{}-{}.json", sub, std::process::id()));
     std::fs::write(&reqf, req_json).map_err(|e| format!("write request: {e}"))?;
-    let mut child = Command::new(exe)
+    let mut cmd = Command::new(exe);
+    for (k, v) in env {
+        cmd.env(k, v);
+    }
+    let mut child = cmd
         .arg(sub)
         .arg(&reqf)
         .stdin(Stdio::null())
@@ -161,4 +177,10 @@ pub fn run_child_json<T: for<'de> Deserialize<'de>>(
 pub fn run_verify_child(exe: &Path, req: &VerifyReq, scratch: &Path) -> Result<VerifyOut, String> {
     let parent = scratch.parent().unwrap_or(scratch);
     run_child_json(exe, "verify-dir", &serde_json::to_string(req).unwrap(), parent, 120)
+}
+
+/// the verifying child runs with the misaligning allocator (key buffers at addresses 8n+1)
+pub fn run_verify_child_misaligned(exe: &Path, req: &VerifyReq, scratch: &Path) -> Result<VerifyOut, String> {
+    let parent = scratch.parent().unwrap_or(scratch);
+    run_child_json_env(exe, "verify-dir", &serde_json::to_string(req).unwrap(), parent, 120, &[("VP_MISALIGN", "1")])
 }
